@@ -278,4 +278,85 @@ def run(ctx):
         run.error("C10.R5: Slatepacker::create_slatepack not found")
     else:
         c.require_pass(ctx, R5, PACK, c.LW + "slatepack::types::Slatepack::try_encrypt_payload", ("okret",), "create_slatepack Ok requires try_encrypt_payload Ok on every path")
+    R6 = "C10.R6"
+    run.rule(R6, "the address key of derivation index i depends on i ('no other key' includes the same wallet's keys at other indices): address_from_derivation_path writes the index into the last path element inside the depth it hands to the key derivation (which walks path[0..depth])", floor=1)
+    afd = ctx.fn(c.LW + "address::address_from_derivation_path")
+    if afd is None:
+        run.error("C10.R6: address::address_from_derivation_path not found")
+    else:
+        KP = "grin_keychain::types::ExtKeychainPath"
+
+        def _is_depth(pl):
+            return bool(pl) and len(pl[1]) >= 1 and isinstance(pl[1][-1], dict) and pl[1][-1].get("n") == "depth" and (pl[1][-1].get("a") or "").startswith(KP)
+
+        depth_writes = [(b, i, st) for b, bb in enumerate(afd.bbs) for i, st in enumerate(bb["s"]) if st["k"] == "a" and _is_depth(st["d"])]
+
+        def _after(b, i, wb, wi):
+            if b == wb:
+                return i > wi
+            return b not in cfg.reach(afd, cut_nodes=frozenset({wb}))
+
+        def _ev(o, at, depth=0):
+            """operand -> ('const', n) | ('depth', 'pre'|'post', k) | None"""
+            if depth > 12:
+                return None
+            cv = vf.const_of_operand(afd, o)
+            if cv is not None and str(cv).lstrip("-").isdigit():
+                return ("const", int(cv))
+            pl = vf.op_place(o)
+            if pl is None:
+                return None
+            if _is_depth(pl):
+                post = [w for w in depth_writes if _after(at[0], at[1], w[0], w[1])]
+                return ("depth", "post" if post else "pre", 0)
+            l = pl[0]
+            proj = pl[1]
+            ds = afd.defs().get(l, [])
+            if len(ds) != 1 or ds[0][0] != "a":
+                return None
+            _k, db_, di_, st = ds[0]
+            r = st["r"]
+            if r["k"] == "use" or r["k"] == "cast":
+                if proj:
+                    return None
+                return _ev(r["o"], (db_, di_), depth + 1)
+            if r["k"] == "bin" and r["op"] in ("AddWithOverflow", "SubWithOverflow", "Add", "Sub"):
+                a_, b_ = _ev(r["l"], (db_, di_), depth + 1), _ev(r["r"], (db_, di_), depth + 1)
+                if a_ is None or b_ is None or b_[0] != "const":
+                    return None
+                sign = 1 if r["op"].startswith("Add") else -1
+                if a_[0] == "const":
+                    return ("const", a_[1] + sign * b_[1])
+                return ("depth", a_[1], a_[2] + sign * b_[1])
+            return None
+
+        # the write of the index into the path
+        idx_writes = []
+        for b, bb in enumerate(afd.bbs):
+            for i, st in enumerate(bb["s"]):
+                d = st.get("d")
+                if st["k"] == "a" and d and len(d[1]) >= 2 and isinstance(d[1][-1], dict) and "ix" in d[1][-1] and isinstance(d[1][-2], dict) and d[1][-2].get("n") == "path":
+                    src = vf.origins(afd, st["r"]["o"]) if st["r"]["k"] == "use" else set()
+                    if ("arg", 3) in src or any(x[0] == "arg" and x[1] == 3 for x in src):
+                        idx_writes.append((b, i, d[1][-1]["ix"]))
+        if len(idx_writes) != 1:
+            run.error("C10.R6: expected one write of the index parameter into key_path.path[..], found %d" % len(idx_writes))
+        else:
+            b, i, ixl = idx_writes[0]
+            slot = _ev({"c": [ixl, []]}, (b, i))
+            # net change of depth (each write must be depth := depth + const)
+            net, okd = 0, True
+            for wb, wi, st in depth_writes:
+                v = _ev(st["r"]["o"], (wb, wi)) if st["r"]["k"] == "use" else None
+                if v is None or v[0] != "depth":
+                    okd = False
+                else:
+                    net = v[2] if v[1] == "pre" else net + v[2]
+            rel = None
+            if slot is not None and okd and slot[0] == "depth":
+                rel = slot[2] - (net if slot[1] == "pre" else 0)
+            held = rel == -1
+            run.instance(R6, {"fn": "address_from_derivation_path", "obligation": "index written to path[final depth - 1]", "slot": str(slot), "depth change": net, "slot - final depth": rel}, held=held)
+            if not held:
+                run.finding(Finding(R6, afd.id, "the derivation index is not written into the last path element inside the depth handed to the key derivation: every index of an account yields the same address key (a slatepack for the address at index i opens with the key at any index j)" if rel is not None else "the slot the derivation index is written to could not be related to the path depth", site=c.site_of(afd, b), detail="slot=%s, depth change=%s" % (slot, net)))
     run.not_decided += ["'no other key decrypts' / 'any payload edit is rejected' (age AEAD semantics)", "that a 4-byte checksum catches every edit (probabilistic)", "round-trip equality (C08)"]
